@@ -64,7 +64,7 @@ class C15Cuckoo(CuckooWorld):
 SPEC = PropSpec(
     prop="C15",
     scenarios=[(1, C15Cuckoo)],
-    runs={"quick": 40000, "thorough": 1200000},
+    runs={"quick": 30000, "thorough": 1000000},
     rule=("world K histories (add/remove/expand/export+load, <=40 steps) with every eviction decision owned by the "
           "simulator and fan-out over alternative decision tapes; after every operation, every fan-out branch, every "
           "raised CuckooFilterFullError and every load the exposed bucket table is checked: bucket count = capacity, "
